@@ -1,1 +1,25 @@
-From QV Require Import Base Fields SrcFacts Msg Decoder Encoder.
+(* Properties_C02.v — the decoder accepts every conformant encoding and recovers the exact message. *)
+From QV Require Import Base Fields SrcFacts Msg Decoder WireSpec DecoderSafety DecoderComplete.
+Local Open Scope N_scope.
+
+(* Name level (the part of the property that carries the compression rules): for EVERY placement of
+   compression pointers allowed by RFC 1035 - NameAt permits a pointer to any earlier offset, in an owner
+   name or inside rdata, where the remaining labels are encoded, with chains of any length - and any byte
+   content of the labels, parseName returns exactly the dotted name and leaves the cursor just after the
+   name's in-place encoding (after the zero byte or after the first pointer).
+   PARTIAL with respect to the full statement "Encodes p m -> from_packet p = Ok m": the record and message
+   layers (fixed-width fields, rdata by type, unsupported types skipped by rdlength, count summation) are
+   tied by the reference-encoder correspondence run of this check; their relational spec is still to be
+   stated in WireSpec.v. *)
+Theorem C02_name_complete_partial mem len off ls e acc fuel :
+  len <= 65535 -> (N.to_nat len < fuel)%nat ->
+  NameAt mem len off off ls e -> parse_name mem len fuel off acc = Ok (name_of acc ls, e).
+Proof. intros H1 H2 H3. exact (parse_name_complete mem len H1 off ls e acc fuel H2 H3). Qed.
+Print Assumptions C02_name_complete_partial.
+
+(* non-vacuity: "a.b." at 0, then at 5 the name "c.b." written as label c + pointer to offset 2 (inside the
+   first name), then at 9 a pointer to 5: a chain of two pointers *)
+Example C02_example :
+  let p := [1; 97; 1; 98; 0;  1; 99; 192; 2;  192; 5]%N in
+  decode_name p 9 = Ok (Some [99; 46; 98; 46]%N, 11) /\ decode_name p 5 = Ok (Some [99; 46; 98; 46]%N, 9).
+Proof. vm_compute. auto. Qed.
